@@ -22,4 +22,4 @@ for a in sys.argv[2:]:
             i = st.rindex(') :') + 1
             b, rest = st[:i], st[i + 2:]
         st = ': forall ' + b.strip() + ',' + rest
-    print('Theorem %s %s\nProof. exact %s.%s. Qed.\nPrint Assumptions %s.\n' % (new, st.strip(), mod, n, new))
+    print('Theorem %s %s\nProof. exact (@%s.%s). Qed.\nPrint Assumptions %s.\n' % (new, st.strip(), mod, n, new))
